@@ -226,6 +226,54 @@ def layer_soundness(ctx, tmp):
 
 
 # --------------------------------------------------------------------------
+# processes that differ in how the interpreter was started (python -O, an ASCII locale without UTF-8 mode, another hash
+# seed) share one cache directory: each of them renders with the cache exactly as without, and what one of them stored
+# serves the others
+ENV_TEMPLATES = {
+    'default': SRC,
+    'non-ascii': '<p title="\u00e9\u65e5">\u00fc ${v} \u20ac<!-- \u00e7 --></p>',
+    'nested-translation': ('<div i18n:translate="">Hello <span i18n:name="first"><b i18n:translate="">inner</b></span> and '
+                           '<span i18n:name="second">two ${v}</span>!</div>'),
+    'macro': CRASH_TEMPLATES['macro'],
+    'switch-and-repeat': '<ul tal:switch="v"><li tal:case="1" tal:repeat="i (1, 2)">${i} ${repeat.i.end}</li><li tal:case="default">d</li></ul>',
+}
+PROCESS_ENVS = {
+    'python -O': {'PYTHONOPTIMIZE': '1'},
+    'python -OO': {'PYTHONOPTIMIZE': '2'},
+    'ascii locale': {'LC_ALL': 'C', 'LANG': 'C', 'PYTHONCOERCECLOCALE': '0', 'PYTHONUTF8': '0'},
+    'latin-1 io': {'LC_ALL': 'C', 'PYTHONCOERCECLOCALE': '0', 'PYTHONUTF8': '0', 'PYTHONIOENCODING': 'latin-1'},
+    'other hash seed': {'PYTHONHASHSEED': '12345'},
+}
+
+
+def layer_process_environments(ctx, tmp):
+    work = [(t, e) for t in sorted(ENV_TEMPLATES) for e in sorted(PROCESS_ENVS)]
+    for idx, (tname, ename) in enumerate(work):
+        if idx % ctx.nshards != ctx.shard:
+            continue
+        j = job({'body': ENV_TEMPLATES[tname]})
+        ref = run_child([j])['results']
+        if not ref:
+            ctx.mark_inconclusive('no-cache reference run failed for %s' % tname)
+            continue
+        for order in ('other-writes-first', 'ordinary-writes-first'):
+            d = tempfile.mkdtemp(prefix='cache_env_', dir=tmp)
+            first_env, second_env = (PROCESS_ENVS[ename], None) if order == 'other-writes-first' else (None, PROCESS_ENVS[ename])
+            r1 = run_child([j], d, extra_env=first_env)
+            r2 = run_child([j], d, extra_env=second_env)
+            ctx.mon('process-environment-pairs')
+            ctx.case(key=('process-env', tname, ename, order), nontrivial=True)
+            for which, r in (('first', r1), ('second', r2)):
+                if r['results'] != ref:
+                    ctx.violation('cache-shared-between-differently-started-processes:' + ename,
+                                  'template %s, cache directory shared by an ordinary process and one started with %s (%s): the %s process rendered %r '
+                                  '(rc %r, stderr %r), without a cache directory %r' % (tname, ename, order, which, r['results'], r['rc'], r['stderr'][-200:], ref),
+                                  {'kind': 'process-env', 'template': tname, 'env': ename, 'order': order})
+                    break
+            shutil.rmtree(d, ignore_errors=True)
+
+
+# --------------------------------------------------------------------------
 def after_crash_check(ctx, d, jobs, ref, ref_files, what):
     """A fresh process on the same directory must render the reference; entries must be complete."""
     ctx.mon('crashes-survived-check')
@@ -482,6 +530,7 @@ def run(ctx):
     tmp = tempfile.mkdtemp(prefix='c15_')
     try:
         layer_soundness(ctx, tmp)
+        layer_process_environments(ctx, tmp)
         layer_crash(ctx, tmp)
         layer_crash_other_filesystem(ctx, tmp)
         layer_two_writers(ctx, tmp)
